@@ -165,6 +165,28 @@ def rollup_accumulator_rule(ctx: Ctx, rid: str, which=("upd", "sc")):
                        ("earliest child start (min-accumulator)" if "start" in acc else "latest child end (max-accumulator)") if okk else
                        f"roll-up accumulator for {acc} has the wrong direction ({tab})", key=f"{rid}|{fn.qual}|{acc}")
         if len(found) != 2:
+            # aggregate form: the children's dates are collected in a list and the roll-up is min(list) / max(list)
+            fdd = ctx.dep.of(fn)
+            for a_ in own_nodes(fn):
+                if not (isinstance(a_, ast.Assign) and len(a_.targets) == 1 and isinstance(a_.targets[0], ast.Name) and a_.targets[0].id in exp
+                        and a_.targets[0].id not in found):
+                    continue
+                acc = a_.targets[0].id
+                v_ = a_.value.body if isinstance(a_.value, ast.IfExp) else a_.value
+                if not (isinstance(v_, ast.Call) and isinstance(v_.func, ast.Name) and v_.func.id in ("min", "max") and len(v_.args) == 1
+                        and isinstance(v_.args[0], ast.Name) and not v_.keywords):
+                    continue
+                lst = v_.args[0].id
+                pushed = [c_.args[0] for c_ in own_nodes(fn) if isinstance(c_, ast.Call) and isinstance(c_.func, ast.Attribute) and c_.func.attr == "append"
+                          and norm(c_.func.value) == lst and len(c_.args) == 1]
+                which_ = "start" if "start" in acc else "end"
+                src_ok = bool(pushed) and all(f"pattr:{which_}" in data(fdd.deps_of(e_)) for e_ in pushed)
+                okk = src_ok and v_.func.id == ("min" if which_ == "start" else "max")
+                found[acc] = True
+                ctx.ob(rid, f"{fn.qual}: {acc} <- {norm(a_.value)[:70]}", (fn, a_), okk,
+                       ("earliest child start (min over the children's starts)" if which_ == "start" else "latest child end (max over the children's ends)") if okk else
+                       f"roll-up of {acc} is not the {'minimum' if which_ == 'start' else 'maximum'} of the children's {which_} dates", key=f"{rid}|{fn.qual}|{acc}")
+        if len(found) != 2:
             raise AnchorMissing(f"{fn.qual}: roll-up accumulators found {sorted(found)}")
         # loop over the children
         loops = [l for l in own_nodes(fn) if isinstance(l, ast.For) and "children" in norm(l.iter)]
